@@ -4,11 +4,5 @@ CONSTANTS
   TokenMod = 4
   ProbeMod = 4
   Fixes = {"654ac52", "3f5c312", "66b62cc", "7418747", "f6702a7", "73fde95", "ea3a2f4", "6ca130a"}
-  Keys = {1, 2, 3}
-  Sizes = {3, 5}
-  MaxTx = 3
-  MaxSpace = 18
-  Overhead = 2
-  MaxOps = 5
-INVARIANTS OnePerKey Accounting LeavesAfterExactlyMaxTx NothingFittingOmitted CanonIsLegal
+INVARIANTS Iff DownFinal
 CHECK_DEADLOCK FALSE
